@@ -52,6 +52,9 @@ for col in ["client", "left_clock", "right_clock", "info", "parent_info", "type_
     c10("t2_col_%s_short" % col, "T2", "well-framed v2 buffer, column under test = every byte string "
         "of length 0..3, 2-3 reads", "DecoderV2 %s column reader (truncation)" % col,
         tier="thorough", required=False, timeout=1500)
+c10("t2_col_client_full9", "T2", "client column = every 9-byte string, 1 read", "DecoderV2::read_client, values above 53 bits")
+c10("t2_col_left_id_client9", "T2", "client column = every 9-byte string, left-clock column [2], 1 read",
+    "DecoderV2::read_left_id, client values above 53 bits")
 c10("t2_col_range_full", "T2", "rest buffer = every 10-byte string", "Range<u32>::decode over DecoderV2")
 for n in ["client_k8", "left_clock_k8", "info_k8", "len_k8", "string_k8", "ds_k10"]:
     c10("t2_col_" + n, "T2", "column under test = every byte string of length 0..8 (10), 3-4 reads",
@@ -100,10 +103,13 @@ for n in ["f64_int", "bigint_string"]:
 for n in ["relative", "root", "nested", "bad_tag"]:
     c10("t6_sticky_" + n, "T6", "scope tag concrete, every payload <= 2..5 bytes, every prefix length",
         "StickyIndex::decode_v1 (%s)" % n, timeout=900)
+for n in ["relative_full", "nested_full"]:
+    c10("t6_sticky_" + n, "T6", "scope tag concrete + every 10-byte string (full length only)",
+        "StickyIndex::decode_v1 (%s): client ids up to 70 bits" % n, timeout=900)
 for n in ["sync", "awareness", "auth", "query", "custom_4", "custom_200"]:
     c10("t6_msg_" + n, "T6", "message tag concrete, every payload <= 2..4 bytes, every prefix length",
         "sync::protocol::Message::decode_v1 (%s)" % n, timeout=900)
-c10("t7_state_vector_v1", "T7", "every byte string <= 6; path cut at the first insert",
+c10("t7_state_vector_v1", "T7", "every byte string <= 10; path cut at the first insert",
     "StateVector::decode_v1: reservation made from the count field")
 c10("t7_awareness_update_v1", "T7", "every byte string <= 6; path cut at the first insert",
     "AwarenessUpdate::decode_v1: reservation made from the count field", timeout=900)
